@@ -88,6 +88,11 @@ pub trait RngExt: Rng {
         self.fill_bytes(&mut v);
         v
     }
+    /// random bytes of a random length in lo..hi
+    fn bytes_between(&mut self, lo: usize, hi: usize) -> Vec<u8> {
+        let n = self.gen_range(lo..hi);
+        self.bytes(n)
+    }
     /// A u32 biased towards boundaries
     fn u32_biased(&mut self) -> u32 {
         match self.gen_range(0..10) {
